@@ -239,6 +239,9 @@ def parserLookup (table : List (Nat × String)) (v : Option Json) : Option Strin
   | some (.num q) => if q.den = 1 ∧ 0 ≤ q.num then (table.find? fun e => e.1 == q.num.toNat).map fun e => e.2 else none
   | _ => none
 
+/-- `parser(lms_dict)`: the parser found in the table is called WITH THE DOCUMENT (the result here is its name) -/
+def callParser (p : Option String) (_doc : Json) : String := p.getD ""
+
 /-- `version == n` -/
 def jsonIsNat (v : Option Json) (n : Nat) : Bool :=
   match v with
